@@ -1659,6 +1659,10 @@ class FortranReaderBase:
             logging.getLogger(__name__).error(message)
         line_content = "".join(lines).strip()
         if line_content:
+            if name is None and len(lines) > 1 and not start_index:
+                # The construct name may be separated from its colon (or
+                # the colon from the statement) by a line continuation.
+                name, line_content = extract_construct_name(line_content)
             return self.line_item(line_content, startlineno, endlineno, label, name)
         if label is not None:
             message = "Label must follow nonblank character (F2008:3.2.5_2)"
